@@ -28,6 +28,8 @@ def gen_cases(ctx):
         cases.append(g.overflow())
     for _ in range(max(2, n_str // 2)):
         cases.append(g.partial())
+    for _ in range(10 if ctx.thorough else 2):
+        cases.append(g.bigseg())
     return cases
 
 
@@ -176,6 +178,21 @@ def run(ctx):
                 wf_bad.append((ci, si, w[:2]))
             completed = "maxpolls=1 " not in (op + " ") and not panicked
             bad = oracle(dag, rd, sess, completed)
+            if case["kind"] == "bigseg" and completed:
+                # linear layouts, at most a handful of segments: the session must deliver exactly the missing commands,
+                # each once, and finish within ceil(total/100)+1 successful polls (maxpolls is that bound)
+                sent = [c["id"] for c in stream_of(sess)[2]]
+                adv_ = dag.ancestors([a[0] for a in sess["sample"] if a[0] in dag.parents])
+                missing = S.committed(rd) - adv_
+                okpolls = sum(1 for a in sess["attempts"] if a["ok"])
+                if len(set(sent)) != len(sent):
+                    bad.append("the session sent a command twice (%d sent, %d distinct)" % (len(sent), len(set(sent))))
+                elif set(sent) != missing:
+                    bad.append("the session delivered %d of the %d missing commands" % (len(set(sent) & missing), len(missing)))
+                if not any(a["ok"] and a.get("msg") and a["msg"]["kind"] == "end" for a in sess["attempts"]):
+                    bad.insert(0, "no SyncEnd within ceil(total/100)+1 = %d polls (%d commands were missing)" % ((len(missing) + 99) // 100 + 1, len(missing)))
+                elif okpolls > (len(missing) + 99) // 100 + 1:
+                    bad.append("session needed %d polls for %d commands" % (okpolls, len(missing)))
             if panicked:
                 bad.append("panic inside the session")
             # retry transparency: the successful messages equal those of the retry-free first pass
@@ -248,7 +265,8 @@ def run(ctx):
         "rule": "trace = one real SyncRequester/SyncResponder session between two real ClientStates, every poll attempt compared with the "
                 "Coq model run on the dumped segment layout (command ids, index, header and data length, error class); non-trivial = at "
                 "least one command delivered; worlds: random 2-4 client histories, >100-command / >100-segment chains, straddling "
-                "segments with receive buffers around the exact fit, oversized commands",
+                "segments with receive buffers around the exact fit, oversized commands, single segments of 250-320 commands (3+ responses "
+                "resuming inside one segment, poll budget = the session_terminates bound)",
         "distribution": stats,
         "samples": [{"op": op, "sample_len": len(sess["sample"]), "attempts": [(a["buf"], a.get("len", a.get("err"))) for a in sess["attempts"]][:6]}
                     for (ci, si, rd, sess, op) in items[:3]],
